@@ -705,6 +705,13 @@ func GetCallable(mroPaths []string, name string, compile bool) (syntax.Callable,
 					if ast, err := parse(data, fpath); err == nil {
 						for _, callable := range ast.Callables.List {
 							if callable.GetId() == name {
+								if !compile {
+									// Try to initialize the type table, but
+									// don't worry about failures.  The includes
+									// were never parsed, so failures are to be
+									// expected.
+									_ = ast.CompileTypes()
+								}
 								return callable, &ast.TypeTable, nil
 							}
 						}
